@@ -16,7 +16,7 @@ func init() {
 			"(R2) every production Hasher: Salted(salt,data…)=Do(data…,salt), Do resets, writes every element in order and returns Sum(nil); fakes are never constructed by production code; (R3) position encodings (history BE64‖BE16, root height bits.Len64(version); hyper BE16‖index, root = zero index at 8·len); " +
 			"(R4) hyper default hashes [0]=Do({0},{0}), [i]=Do([i-1],[i-1]); (R5) insert, bulk insert and verify prepare the leaf value identically; (R6) history bulk insertion = the single insertion traversal with version=initial+i; (R7) freeze rule + insertion computes the shape prover/verifier recompute; " +
 			"(R8) caches are read-through and wired to the table the tree writes; (R9) hyper traversals address their own (pos, batch, slot); (R10) in-place list insertion never aliases sibling branches; (R11) reused read buffers are consumed up to the count read (cache rebuild after restart); (R12) a failed batch load is never taken for an empty batch.",
-		Added:       "Also (R13) no leaf of a bulk is dropped, persisted batch = written batch, a repeated key keeps its first value; (R14) the state-transfer filter skips exactly what the follower has. Third round: (R13) shortcut arguments and push-down resets as in C01.R12; (R9) one ordering convention for leaf lists; (R11) one recovery level and tiles persisted whenever cached.",
+		Added:       "Also (R13) no leaf of a bulk is dropped, persisted batch = written batch, a repeated key keeps its first value; (R14) the state-transfer filter skips exactly what the follower has. Third round: (R13) shortcut arguments and push-down resets as in C01.R12; (R9) one ordering convention for leaf lists; (R11) one recovery level and tiles persisted whenever cached. Fifth round: the applied-index marker persisted with an entry is the entry's own new state.",
 		Assumptions: []string{"SHA-256 / BLAKE2b implementations", "store returns what was written"},
 		Declined:    "equality with an independent reference on all sequences, independence from batching for the hyper push-down logic as a whole, from cache evictions and restarts as value-level statements.",
 	}, runC04)
